@@ -327,6 +327,24 @@ fn unsolved_info(ctx: &mut Ctx, text: &str, cfg: &Cfg, run: &Run, tin: &[Tok]) -
     (site, all_toks)
 }
 
+/// Known finding F22: the pass re-flowed a line (a multi-line string was re-indented) and the two results differ only in the
+/// blanks in front of comments.
+fn reflow_comment_site(run: &Run, a: &str, b: &str) -> &'static str {
+    if step_args(&run.events, "reindent_string").is_empty() {
+        return "";
+    }
+    let (ta, tb) = (lex(a).unwrap_or_default(), lex(b).unwrap_or_default());
+    if ta.len() != tb.len() {
+        return "";
+    }
+    let differing: Vec<usize> = (0..ta.len()).filter(|&k| ta[k].text(a) != tb[k].text(b) || ta[k].ws(a) != tb[k].ws(b)).collect();
+    if !differing.is_empty() && differing.iter().all(|&k| ta[k].is_comment() && ta[k].text(a) == tb[k].text(b)) {
+        " [site: a comment is indented differently by the re-flow after strings were re-indented]"
+    } else {
+        ""
+    }
+}
+
 pub fn check_case(ctx: &mut Ctx, case: &Case, cfg: &Cfg, props: &[String], want_session: bool) -> CaseResult {
     let mut res = CaseResult { viols: vec![], session: Session::default(), nontrivial: HashMap::new(), skipped_precondition: 0 };
     let text = &case.text;
@@ -623,6 +641,19 @@ pub fn check_case(ctx: &mut Ctx, case: &Case, cfg: &Cfg, props: &[String], want_
                         if in_unsolved {
                             v.detail.push_str(unsolved_site);
                         }
+                        // the opener is `strict <comment> private|protected`: the comment hides the visibility keyword from the
+                        // parser's look-ahead and `strict` is taken for a name (known finding F21)
+                        if let Some(ro) = v.detail.find("[opener ").and_then(|p| v.detail[p + 8..].split(']').next().and_then(|n| n.parse::<usize>().ok())) {
+                            if let Some(t) = plain.get(ro) {
+                                if t.text(&out).eq_ignore_ascii_case("strict") {
+                                    if let Some(k) = tout.iter().position(|x| x.start == t.start) {
+                                        if tout.get(k + 1).is_some_and(|x| x.is_comment()) {
+                                            v.detail.push_str(" [site: comment between `strict` and the visibility keyword]");
+                                        }
+                                    }
+                                }
+                            }
+                        }
                         res.viols.push(v);
                     }
                 } else {
@@ -780,7 +811,11 @@ pub fn check_case(ctx: &mut Ctx, case: &Case, cfg: &Cfg, props: &[String], want_
             Ok(o2) if *o2 == out => {}
             Ok(o2) => {
                 let moved = moved_string_site(&base);
-                let site = if !moved.is_empty() { moved } else if has_step(&base.events, "stale_cache_hit") { " [site: re-flow reused a child-line solution cached before strings were re-indented]" } else { "" };
+                let mut site = if !moved.is_empty() { moved } else if has_step(&base.events, "stale_cache_hit") { " [site: re-flow reused a child-line solution cached before strings were re-indented]" } else { "" };
+                // only the blanks in front of comments differ, and the first pass re-flowed lines after re-indenting strings
+                if site.is_empty() {
+                    site = reflow_comment_site(&base, &out, o2);
+                }
                 res.viols.push(Viol { prop: "C03", clause: "idempotent", detail: format!("{}{site}", first_diff(&out, o2)) })
             }
             Err(p) => res.viols.push(Viol { prop: "C04", clause: "panic", detail: p.clone() }),
@@ -805,7 +840,10 @@ pub fn check_case(ctx: &mut Ctx, case: &Case, cfg: &Cfg, props: &[String], want_
                     if let Ok(y2) = &r2.out {
                         if y2 != y1 {
                             let moved = moved_string_site(&r1);
-                            let site = if !moved.is_empty() { moved } else if has_step(&r1.events, "stale_cache_hit") { " [site: re-flow reused a child-line solution cached before strings were re-indented]" } else { "" };
+                            let mut site = if !moved.is_empty() { moved } else if has_step(&r1.events, "stale_cache_hit") { " [site: re-flow reused a child-line solution cached before strings were re-indented]" } else { "" };
+                            if site.is_empty() {
+                                site = reflow_comment_site(&r1, y1, y2);
+                            }
                             res.viols.push(Viol { prop: "C03", clause: "idempotent", detail: format!("(after shifting the first multi-line literal of the formatted text) {}{site}", first_diff(y1, y2)) });
                         }
                     }
